@@ -151,7 +151,7 @@ func (c *Ctx) ssapkg(rel string) *ssa.Package {
 // pos renders a position relative to the repo root.
 func (c *Ctx) pos(p token.Pos) string {
 	if !p.IsValid() {
-		return ""
+		return "(no position)"
 	}
 	ps := c.Fset.Position(p)
 	rel, err := filepath.Rel(c.Repo, ps.Filename)
@@ -170,7 +170,11 @@ func (c *Ctx) Rule(id, statement string, min int) {
 }
 
 func (c *Ctx) add(verdict, key string, p token.Pos, nontrivial bool, format string, a ...any) {
-	o := Obligation{Rule: c.curRule, Key: key, Pos: c.pos(p), Verdict: verdict, Fact: fmt.Sprintf(format, a...), Nontrivial: nontrivial}
+	ps := c.pos(p)
+	if !p.IsValid() {
+		ps = ""
+	}
+	o := Obligation{Rule: c.curRule, Key: key, Pos: ps, Verdict: verdict, Fact: fmt.Sprintf(format, a...), Nontrivial: nontrivial}
 	c.Obls = append(c.Obls, o)
 }
 
